@@ -159,11 +159,19 @@ fn answer(text: &[char], chunks: &[usize], spans: &[(usize, usize, usize)]) -> (
     bounds.push(len);
     let mut ln = Vec::new();
     for b in 0..len + 2 {
-        match guarded(std::panic::AssertUnwindSafe(|| nlc.byte_to_line_num(b))) {
-            Ok(Some(l)) => ln.push(l.to_string()),
-            Ok(None) => ln.push("N".to_string()),
-            Err(_) => ln.push("P".to_string()),
-        }
+        let mut e = match guarded(std::panic::AssertUnwindSafe(|| nlc.byte_to_line_num(b))) {
+            Ok(Some(l)) => l.to_string(),
+            Ok(None) => "N".to_string(),
+            Err(_) => "P".to_string(),
+        };
+        // start of the line, `byte_to_line_byte`
+        e.push(':');
+        e.push_str(&match guarded(std::panic::AssertUnwindSafe(|| nlc.byte_to_line_byte(b))) {
+            Ok(Some(l)) => l.to_string(),
+            Ok(None) => "N".to_string(),
+            Err(_) => "P".to_string(),
+        });
+        ln.push(e);
     }
     let mut lc = Vec::new();
     for &b in &bounds {
